@@ -39,10 +39,13 @@ var texts = []string{
 	`{ a { id rs arg(x: 2) b { v } } i }`,
 	`query A($n: Int = 1, $f: Boolean = true) { echo(n: $n) s @include(if: $f) } query B { i echo(s: "c") }`,
 	`query($s: String) { echo(s: $s) s }`,
+	// the same response key selected several times in one selection set, merged under variables
+	`query($f: Boolean = true) { a { id rs name } a @include(if: $f) { b { v } } a @skip(if: $f) { n nn } s }`,
+	`query($f: Boolean = true) { nodes { id __typename ... on A { rs name n } } nodes @include(if: $f) { ... on A { nn } } nodes @skip(if: $f) { ... on B { v } } }`,
 }
 
 var opNames = []string{"", "A", "B", "M", "Zzz"}
-var variables = []string{"", `{"n":2}`, `{"n":3,"f":false}`, `{"s":"x"}`, `{"x":7}`, `{"n":"bad"}`, `{}`, `null`, `"x"`, `[1,2]`, `5`}
+var variables = []string{"", `{"f":false}`, `{"f":true}`, `{"n":2}`, `{"n":3,"f":false}`, `{"s":"x"}`, `{"x":7}`, `{"n":"bad"}`, `{}`, `null`, `"x"`, `[1,2]`, `5`}
 var extensionsPool = []string{"", `{"echo":"e1"}`, `{"echo":"e2","other":[1]}`, "APQ", "APQHASHONLY", "APQWRONG", `"notanobject"`, `[{"echo":"e3"}]`}
 var echoHeaders = []string{"", "h1", "h2"}
 
